@@ -25,3 +25,5 @@ Proof. revert l. induction n as [|n IH]; intro l; [reflexivity|]. destruct l as 
 Lemma nth_firstn_lt {A} (l : list A) n i d : i < n -> nth i (firstn n l) d = nth i l d.
 Proof. revert l i. induction n as [|n IH]; intros l i H; [lia|]. destruct l as [|x l]; [reflexivity|].
   destruct i as [|i]; [reflexivity|]. cbn. apply IH. lia. Qed.
+Lemma skipn_add {A} (a b : nat) (l : list A) : skipn a (skipn b l) = skipn (b + a) l.
+Proof. revert l. induction b as [|b IH]; intro l; [reflexivity|]. destruct l as [|x l]; [rewrite !skipn_nil; reflexivity|]. cbn. apply IH. Qed.
